@@ -141,6 +141,7 @@ func blockedOnLock(g uint64, dump []byte) bool {
 func (s *Sched) settle(timeout time.Duration) bool {
 	deadline := time.Now().Add(timeout)
 	spins := 0
+	stable := 0
 	var buf []byte
 	for {
 		running := false
@@ -174,9 +175,16 @@ func (s *Sched) settle(timeout time.Duration) bool {
 			}
 		}
 		if allBlocked {
-			// re-check states: a thread may have parked in the meantime, which is fine either way
-			return true
+			// a wait for a lock may be transient (a lock of the harness or one that another running thread is about
+			// to release): only a wait that persists over several samples counts
+			stable++
+			if stable >= 3 {
+				return true
+			}
+			time.Sleep(30 * time.Microsecond)
+			continue
 		}
+		stable = 0
 		if time.Now().After(deadline) {
 			return false
 		}
@@ -211,6 +219,7 @@ func (s *Sched) AllDone() bool {
 // step. It returns the choices made and the number of alternatives at each step.
 func (s *Sched) Run(choose func(step int, en []*Thread) int) (choices, enabled []int, ok bool) {
 	step := 0
+	var stuckSince time.Time
 	for {
 		if !s.settle(3 * time.Second) {
 			s.Deadlock = "a thread neither reached a yield point nor a lock within 3s (hang)"
@@ -222,10 +231,19 @@ func (s *Sched) Run(choose func(step int, en []*Thread) int) (choices, enabled [
 		}
 		en := s.Schedulable()
 		if len(en) == 0 {
-			s.Deadlock = "no thread is schedulable: all remaining threads wait for locks (deadlock)"
-			s.abandon()
-			return choices, enabled, false
+			// nobody is parked, so nobody can release a lock: a real deadlock persists, a transient wait does not
+			if stuckSince.IsZero() {
+				stuckSince = time.Now()
+			}
+			if time.Since(stuckSince) > 3*time.Second {
+				s.Deadlock = "no thread is schedulable: all remaining threads have been waiting for locks for 3s (deadlock)"
+				s.abandon()
+				return choices, enabled, false
+			}
+			time.Sleep(100 * time.Microsecond)
+			continue
 		}
+		stuckSince = time.Time{}
 		c := choose(step, en)
 		if c < 0 || c >= len(en) {
 			c = 0
